@@ -1103,8 +1103,9 @@ func (p *Parser) parseBinaryExpression(left Node) (Node, error) {
 	// Create the current binary node
 	binaryNode := NewBinaryNode(operator, left, right, line)
 
-	// Check for another binary operator
-	if p.tokenIndex < len(p.tokens) &&
+	// As long as the following operator binds tighter than the current one it
+	// belongs to the right operand
+	for p.tokenIndex < len(p.tokens) &&
 		(p.tokens[p.tokenIndex].Type == TOKEN_OPERATOR ||
 			(p.tokens[p.tokenIndex].Type == TOKEN_NAME &&
 				(p.tokens[p.tokenIndex].Value == "and" ||
@@ -1141,26 +1142,24 @@ func (p *Parser) parseBinaryExpression(left Node) (Node, error) {
 
 		nextPrecedence := getOperatorPrecedence(nextOperator)
 
-		// If the next operator has higher precedence, we need to parse it first
-		if nextPrecedence > precedence {
-			// Replace the right side with a binary expression
-			newRight, err := p.parseBinaryExpression(right)
-			if err != nil {
-				return nil, err
-			}
-
-			// Update the binary node with the new right side
-			binaryNode = NewBinaryNode(operator, left, newRight, line)
+		// Operators that do not bind tighter are left to the caller, which
+		// groups them from the left
+		if nextPrecedence <= precedence {
+			break
 		}
+
+		// Replace the right side with a binary expression
+		right, err = p.parseBinaryExpression(right)
+		if err != nil {
+			return nil, err
+		}
+
+		// Update the binary node with the new right side
+		binaryNode = NewBinaryNode(operator, left, right, line)
 	}
 
-	// Check for ternary operator after parsing the binary expression
-	if p.tokenIndex < len(p.tokens) &&
-		p.tokens[p.tokenIndex].Type == TOKEN_PUNCTUATION &&
-		p.tokens[p.tokenIndex].Value == "?" {
-		// This is a conditional expression, use the binary node as the condition
-		return p.parseConditionalExpression(binaryNode)
-	}
+	// A following conditional operator (? :) has the lowest precedence and is
+	// handled by parseExpression once the whole binary expression is known
 
 	return binaryNode, nil
 }
